@@ -17,7 +17,7 @@ RULE = ('layered generated programs: families of extensional tables with one sig
         'through the same pipeline; one evaluation = one (program, predicate); distinct = hash(program text, predicate); non-trivial = a made '
         'predicate whose argument is reached through >= 1 intermediate and whose rows differ from the functor predicate\'s')
 ASSUMPTIONS = ['substitution is simultaneous and composes as in DESIGN 4.21 rule 12', 'reference evaluator as in C01/C02']
-MIN_NONTRIVIAL = 40
+MIN_NONTRIVIAL = 20
 REPORT_COUNTERS = ['programs', 'predicates', 'ok', 'mismatch', 'made_predicates', 'made_ok', 'originals_ok', 'by_hand_equal', 'CallFunctor',
                    'cache_hits_expected', 'functor_of_functor', 'equal_bindings', 'constant_args', 'multi_args', 'through_intermediate', 'discarded']
 
